@@ -7,7 +7,7 @@
    by a render cycle or by shutdown" made every request a blocking send of the
    container goroutine, which is what the fifo of this model describes. *)
 From Coq Require Import Permutation Sorted.
-From MPB Require Import Base BaseProofs BarState Container ContainerProofs GenChecks.
+From MPB Require Import Base BaseProofs BarState Container ContainerProofs ContainerCover GenChecks.
 From MPB.gen Require Import GenApi.
 From Coq Require Import String.
 
@@ -47,6 +47,39 @@ Theorem C05_heap_requests_are_blocking_sends :
   map fst hm_methods = ["sync"; "push"; "iter"; "fix"; "state"; "end"]%string.
 Proof. exact heap_requests_are_blocking_sends. Qed.
 Print Assumptions C05_heap_requests_are_blocking_sends.
+
+(* no bar is ever lost: every bar that was added is in exactly one place (heap, request queue, flush's push list, popped
+   awaiting flush, parked behind a predecessor, or gone for good) in every state of every accepted trace *)
+Theorem C05_bar_in_exactly_one_place : forall p a d evs s x,
+  run (init_cst p a d) evs = Some s -> lookup x (bars s) <> None -> cnt x (places s) = 1%nat.
+Proof. exact bar_in_exactly_one_place. Qed.
+Print Assumptions C05_bar_in_exactly_one_place.
+
+(* when a cycle's ordered iteration begins nothing is in flight: the request queue is empty, nothing is popped, flush holds
+   no push *)
+Theorem C05_nothing_in_flight_when_iteration_begins : forall p a d evs s hl s',
+  run (init_cst p a d) evs = Some s -> step s (HM_ITERREQ true hl) = Some s' ->
+  fifo s' = [] /\ popped s' = [] /\ ph_pushes (ph s') = [] /\ iter_heap s' = heap s' /\ queue s' = queue s /\
+  retired s' = retired s /\ bars s' = bars s.
+Proof. exact iteration_begins_with_nothing_in_flight. Qed.
+Print Assumptions C05_nothing_in_flight_when_iteration_begins.
+
+(* ... so every bar added before the cycle began is in the heap the iteration runs over (and, by
+   C05_frame_is_heap_at_iteration, in the frame exactly once) unless it is waiting behind another bar or has left for good *)
+Theorem C05_iteration_covers_every_bar : forall p a d evs s hl s',
+  run (init_cst p a d) evs = Some s -> step s (HM_ITERREQ true hl) = Some s' ->
+  forall x, lookup x (bars s) <> None ->
+  In x (iter_heap s') \/ In x (map snd (queue s')) \/ In x (retired s').
+Proof. exact iteration_covers_every_bar. Qed.
+Print Assumptions C05_iteration_covers_every_bar.
+
+(* ... in this and in every later cycle: a bar that is not parked never vanishes for a frame and comes back *)
+Theorem C05_bar_in_every_later_iteration : forall p a d evs s x evs' s1 hl s2,
+  run (init_cst p a d) evs = Some s -> lookup x (bars s) <> None -> ~ In x (map snd (queue s)) ->
+  run s evs' = Some s1 -> step s1 (HM_ITERREQ true hl) = Some s2 ->
+  In x (iter_heap s2) \/ In x (retired s2).
+Proof. exact unparked_bar_is_in_every_later_iteration. Qed.
+Print Assumptions C05_bar_in_every_later_iteration.
 
 (* non-vacuity: a two-bar run with a completion is accepted *)
 Example C05_nonvacuous :
